@@ -20,6 +20,8 @@ def check(tree, rep, tier='quick', seed=0):
     core = get_core(tree)
     R.k23_filler(core, rep)
     R.k23f_filling_keeps_no_state(core, rep)
+    R.k23g_box_value_set_in_every_round(core, rep)
+    R.k22e_integer_lines_read_back_exactly(core, rep)   # the text the filler maps is the solved text (no unquoting / detours on read-back)
     R.k11e_parser_options(core, rep)     # the solution text reaches the filler uncut
     cat = get_catalogue(tree)
     n = 0
